@@ -55,6 +55,7 @@ structure St where
   prevOptStr : String := ""
   cachePods : List String := []     -- pods in the plugin's cache
   unsat : List String := []         -- live containers the policy cannot satisfy at all after the restart (harness probe)
+  skipped : List String := []       -- live containers left without allocation that ARE satisfiable when asked directly afterwards
   tainted : Bool := false           -- an unchanged configuration was rejected earlier in this history (known finding); later issues are its consequences
   -- statistics
   hists : Nat := 0
@@ -348,8 +349,9 @@ def step (st : St) (toks : List String) : St × List Issue :=
     let st := { st with drained := true }
     let (st, is) := report st (checkState st)
     ({ st with drained := false }, is)
-  | "E" :: ev => ({ st with lastEv := ev, events := st.events + 1, unsat := [] }, [])
+  | "E" :: ev => ({ st with lastEv := ev, events := st.events + 1, unsat := [], skipped := [] }, [])
   | ["X", "unsat", id] => ({ st with unsat := id :: st.unsat }, [])
+  | ["X", "skipped", id] => ({ st with skipped := id :: st.skipped }, [])
   | "CFG" :: cfg => ({ st with cfg := " ".intercalate cfg, cfgChanged := true }, [])
   | "X" :: _ => (st, [])
   | "R" :: "panic" :: rest => report { st with lastOk := false } [s!"C14:handler-panicked {" ".intercalate st.lastEv} {" ".intercalate rest}"]
@@ -542,7 +544,10 @@ def step (st : St) (toks : List String) : St × List Issue :=
         let errs : List String := if st.lastOk then [] else ["C11:synchronize-failed-after-restart"]
         -- (containers the policy cannot satisfy even when asked directly are reported by the harness as unsat)
         let errs := if st.lastOk then live.foldl (fun errs c =>
-          if !(st.snap.grants.any (·.ctr == c.id)) && !st.unsat.contains c.id then errs ++ [s!"C11:live-container-without-allocation {c.id} ({c.state})"] else errs) errs else errs
+          if !(st.snap.grants.any (·.ctr == c.id)) && !st.unsat.contains c.id then
+            -- (satisfiable when asked directly after the synchronization: left out by the order in which Sync placed the containers)
+            errs ++ [if st.skipped.contains c.id then s!"C11:satisfiable-live-container-left-out-by-sync {c.id} ({c.state})"
+                     else s!"C11:live-container-without-allocation {c.id} ({c.state})"] else errs) errs else errs
         let errs := st.snap.grants.foldl (fun errs g =>
           if !(live.any (·.id == g.ctr)) then errs ++ [s!"C11:allocation-for-container-not-live-at-runtime {g.ctr} ({((getCtr st g.ctr).map (·.state)).getD "unknown"})"] else errs) errs
         let errs := st.cacheView.foldl (fun errs (id, _, _, _) =>
